@@ -348,6 +348,10 @@ def stability_condition(f: Field, bare: bool):
     if bare:
         # s1 = round_d(x0), x1 = fl(s1), s2 = round_d(x1).  If ulp(x) <= 10^-d then |x1 - s1| <= ulp/2 <= half a unit of
         # the last printed digit, so s2 = s1; otherwise |s1 - x0| <= 0.5 10^-d < ulp/2, so x1 = x0 and s2 = s1.
+        if t in ("e", "E") and p["prec"] is not None and int(p["prec"]) == 15:
+            # near a power of ten that is not a double the decimal grid below is ten times finer than above:
+            # 1.0000000000000001e-11 -> '1.000000000000000e-11' -> float -> '9.999999999999999e-12'
+            return False, "16 significant digits without arithmetic: not idempotent next to powers of ten (1.0000000000000001e-11 prints as 1.000000000000000e-11, which reads back as 9.999999999999999e-12)"
         return True, "no arithmetic between parsing and printing: correctly rounded print/parse is idempotent after one cycle"
     if p["prec"] is None:
         return None, "float format without precision"
@@ -366,6 +370,20 @@ def stability_condition(f: Field, bare: bool):
         ok = 6.02 * U * bound < 10.0**-d
         return ok, f"|v| < 1e{k} ({'what the column holds' if w else 'declared bound for fields without a width'}), {d} decimals: 6.02 u 1e{k} {'<' if ok else '>='} 1e-{d}"
     return None, f"format type {t!r}"
+
+
+def bare_instance(f: Field):
+    """The lemma of pyvc/rounding.py that `stability_condition(f, bare=True)` relies on: ("bare-f",), ("e", decimals) for
+    scientific notation with at most 15 significant digits, ("trusted-17",) for 17 or more; None otherwise."""
+    p = f.parsed()
+    if p is None or f.kind != "float":
+        return None
+    if p["type"] in ("f", "F"):
+        return ("bare-f",)
+    if p["type"] in ("e", "E") and p["prec"] is not None:
+        d = int(p["prec"])
+        return ("e", d) if d <= 14 else (("trusted-17",) if d >= 16 else None)
+    return None
 
 
 def margin_instance(f: Field):
